@@ -25,7 +25,7 @@ import (
 // "begin" line without an "outcome" line.
 func runCrash(b block) {
 	var raw, rawopts string
-	kv := map[string]int{"iterations": 40, "duration_ms": 1500, "runs": 1, "starts": 1, "output": 0, "copycheck": 0, "checkcheck": 0}
+	kv := map[string]int{"iterations": 40, "duration_ms": 1500, "runs": 1, "starts": 1, "output": 0, "copycheck": 0, "checkcheck": 0, "typed": 0}
 	for li, fs := range b.lines {
 		switch fs[0] {
 		case "json":
@@ -63,6 +63,23 @@ func runCrash(b block) {
 	if err := json.Unmarshal([]byte(rawopts), &opts); err != nil {
 		outcome("decode-error options")
 		return
+	}
+	if kv["typed"] == 1 {
+		// what a Go program that builds the input itself hands over: typed matrices instead of the []any / map[string]any
+		// the JSON decoder leaves in the `any` fields (the factory has separate branches for them)
+		if js, err := json.Marshal(input.DurationMatrix); err == nil && input.DurationMatrix != nil {
+			var plain [][]float64
+			var one schema.TimeDependentMatrix
+			var many []schema.TimeDependentMatrix
+			switch {
+			case json.Unmarshal(js, &plain) == nil && len(plain) > 0:
+				input.DurationMatrix = plain
+			case json.Unmarshal(js, &many) == nil && len(many) > 0:
+				input.DurationMatrix = many
+			case json.Unmarshal(js, &one) == nil && len(one.DefaultMatrix) > 0:
+				input.DurationMatrix = one
+			}
+		}
 	}
 	model, err := factory.NewModel(input, opts)
 	if err != nil {
